@@ -50,6 +50,9 @@ WithText(c, ch, t) == [progVia |-> c.progVia, nfiles |-> c.nfiles, same |-> c.sa
 Plain(c) == [progVia |-> c.progVia, nfiles |-> c.nfiles, same |-> c.same, nsel |-> c.nsel, out |-> c.out, badProg |-> c.badProg,
              badAt |-> c.badAt, badKind |-> c.badKind]
 
+\* the same command line with an earlier result in the -o path
+WithStale(c) == [x \in DOMAIN c \cup {"pre"} |-> IF x = "pre" THEN "stale" ELSE c[x]]
+
 VARIABLE picked      \* the channel was chosen, the text is chosen next (two phases: see BUILDING.md)
 bvars == <<cvars, picked>>
 
@@ -92,5 +95,8 @@ Vec ==
           libtext |-> (IF Len(calls) = 1 THEN calls[1].text.bytes ELSE <<>>),
           \* the bytes stdout must hold: "<lib>" / "<json>" stand for the library's output / the document
           stream |-> StreamOf(cfg, stdout),
-          status0 |-> status = 0, diag |-> stderr # <<>>, stdout |-> stdout, outfile |-> outfile])
+          status0 |-> status = 0, diag |-> stderr # <<>>, stdout |-> stdout, outfile |-> outfile,
+          \* what the -o path holds afterwards when an earlier result was in it (the function Result: it agrees with
+          \* the steps in every command line of MC_Cli, among them those with pre = "stale")
+          outfileStale |-> Result(WithStale(cfg), lib).outfile])
 =============================================================================
